@@ -10,6 +10,20 @@ TB = ("Trusted: Coq 8.16.1 kernel + vm_compute (no native_compute); the hand-wri
       "Python harness (generators, runner, projections, oracle). ")
 
 CHECKS = {
+    "C01": dict(
+        text="C01_tracks: for every history over the builder API with no transform (moves, rapids, bypass moves, G92, "
+             "homing, probing, mode switches, nested mode contexts left at any point, polylines of arbitrary "
+             "vertices, interleaved with all other calls), every decimal_places and every prefix: the independent "
+             "position machine fed the emitted lines is in the builder's distance mode and on every axis it knows, "
+             "the builder reports a coordinate within n*10^-dp/2 of it, n = 1 + relative words since the last "
+             "absolute set (induction over the history; per-axis rounding-error accounting from the proved bound "
+             "|round(q)-q| <= 10^-dp/2; identity-transform algebra over Q). Correspondence on motion-heavy "
+             "histories + oracle (incl. real tracer shapes in both modes).",
+        note=TB + "Hypotheses: no call of the history is a C05 leak (clean_run; without axes bounds and with valid "
+                  "F/S words there are none); parameter letters distinct, not G/M/T/X/Y/Z. Float rounding of "
+                  "+,- not modelled (dyadic inputs make it exact in the correspondence). No axioms.",
+        technique="Rocq invariant proof over all histories and prefixes + correspondence (vm_compute) + oracle",
+        ref="§C01"),
     "C02": dict(
         text="C02_safe: for every history over the state-tracked API (any decimal_places, rejected calls and C05 leak "
              "sites included) the word-by-word scan of the emitted program never meets M3/M4 with the tool on, M7/M8 "
@@ -57,6 +71,19 @@ CHECKS = {
         note=TB + "Modelled, not verified: CPython, typeguard. No axioms.",
         technique="Rocq proof for all states + model-vs-code correspondence (vm_compute) + oracle",
         ref="§C06"),
+    "C07": dict(
+        text="C07_mirror: for every history over the whole builder API and every prefix, the modal reading of the "
+             "emitted lines (tool start code and S power, coolant mode, T, F, G90/91, M82/83, G93-95, G20/21, "
+             "G17-19, bed/hotend/chamber targets) is mirrored by the builder state: each field is either never "
+             "mentioned and at its documented default (defaults regenerated from /repo) or equal to the dp-rounding "
+             "of the state value (induction over the history, 36-way case analysis with explicit line-shape lemmas). "
+             "Correspondence compares every public state property and get_parameter after every call; the oracle "
+             "re-derives the modal state from the raw output independently.",
+        note=TB + "Hypotheses: no C05 leak in the history (clean_run); parameter letters distinct and not "
+                  "G/M/T/X/Y/Z; halt() with at most one of S/R. The remembered move parameters (get_parameter) are "
+                  "covered by correspondence and oracle only, not by the theorem (partial there). No axioms.",
+        technique="Rocq invariant proof over all histories and prefixes + correspondence (vm_compute) + oracle",
+        ref="§C07"),
     "C17": dict(
         text="Theorems C17_conservation and C17_lines_are_cut (coq/props/C17.v) hold for every byte stream, every "
              "fragmentation into chunks of any size, every placement of read timeouts, after every number of "
